@@ -30,6 +30,9 @@ theorem copy_buffer_nonempty : 0 < copyBufSize := by decide
 
 /-! ## LimitReadCloser -/
 
+def sixWithEOFScripted : Src :=
+  { rest := [1, 2, 3, 4, 5, 6], script := [2, 0, 3], withData := true, term := .eof, closable := true, closes := 0 }
+
 /-- A source of at most `N` bytes passes through unchanged — bytes and terminal (EOF or the
 source's own error) — and is closed exactly once by `Close` (not before). -/
 theorem limit_identity (s : Src) (N : Nat) (bufs : List Nat) (dflt : Nat)
@@ -109,6 +112,95 @@ example : ∃ s : Src, s.closes = 0 ∧ s.term ≠ .eof ∧ s.rest.length = 5 + 
   ⟨{ rest := [1, 2, 3, 4, 5, 6], script := [3, 0, 3], withData := true, term := .boom,
      closable := true, closes := 0 }, by decide⟩
 
+/-- The common case reads as the property does: if byte `N+1` is delivered without an error of the
+source's own (more bytes follow, or the terminal comes alone, or the terminal is EOF), the stream
+ends with exactly `ErrStreamTooLarge` after exactly the first `N` bytes. -/
+theorem limit_too_large_exact (s : Src) (N : Nat) (bufs : List Nat) (dflt : Nat)
+    (hc : s.closes = 0) (hd : 0 < dflt) (hgt : N < s.rest.length)
+    (hown : ¬ (s.rest.length = N + 1 ∧ s.withData = true ∧ s.term ≠ .eof)) :
+    (Limit.consume .fixed (Limit.new s N) bufs dflt).2 = (s.rest.take N, .tooLarge) := by
+  rw [(Limit.consume_spec s N bufs dflt hc hd).1, Limit.spec_new, if_neg (by omega), if_neg hown]
+
+/-- The only other case: the source returns byte `N+1` together with an error of its own; that
+error (not EOF, not swallowed) ends the stream after the first `N` bytes. -/
+theorem limit_too_large_own_error (s : Src) (N : Nat) (bufs : List Nat) (dflt : Nat)
+    (hc : s.closes = 0) (hd : 0 < dflt)
+    (hown : s.rest.length = N + 1 ∧ s.withData = true ∧ s.term ≠ .eof) :
+    (Limit.consume .fixed (Limit.new s N) bufs dflt).2 = (s.rest.take N, s.term) := by
+  rw [(Limit.consume_spec s N bufs dflt hc hd).1, Limit.spec_new, if_neg (by omega), if_pos hown]
+
+example : ∃ s : Src, s.closes = 0 ∧ 5 < s.rest.length ∧
+    ¬ (s.rest.length = 5 + 1 ∧ s.withData = true ∧ s.term ≠ .eof) ∧ s.withData = true :=
+  ⟨{ rest := [1, 2, 3, 4, 5, 6], script := [5, 0, 1], withData := true, term := .eof,
+     closable := true, closes := 0 }, by decide⟩
+
+/-- Every op sequence, every `int64` limit (negative ones included): whatever mixture of `Read`s
+(any buffer sizes) and `Close`s is applied — double `Close`, `Close` after ErrStreamTooLarge,
+`Read` after `Close` — the source is never closed twice; it has been closed exactly once as soon
+as one `Close` is among the ops, and one more `Close` at the end always leaves it at exactly once. -/
+theorem limit_closes_once_any_use (s : Src) (n : Int) (ops : List LimitOp) (hc : s.closes = 0) :
+    (Limit.run .fixed (Limit.new s n) ops).src.closes ≤ 1 ∧
+    (LimitOp.close ∈ ops → (Limit.run .fixed (Limit.new s n) ops).src.closes = 1) ∧
+    (Limit.run .fixed (Limit.new s n) ops).close.src.closes = 1 ∧
+    (Limit.run .fixed (Limit.new s n) ops).close.close.src.closes = 1 := by
+  have h0 : (Limit.new s n).CInv := by simp [Limit.CInv, Limit.new, hc]
+  obtain ⟨h1, _, h3⟩ := Limit.run_cinv ops _ h0
+  obtain ⟨h4, h5⟩ := Limit.close_cinv _ h1
+  obtain ⟨h6, h7⟩ := Limit.close_cinv _ h4
+  unfold Limit.CInv at h1 h4 h6
+  refine ⟨?_, fun hm => ?_, ?_, ?_⟩
+  · rw [h1]; split <;> omega
+  · rw [h1, h3 hm]; rfl
+  · rw [h4, h5]; rfl
+  · rw [h6, h7]; rfl
+
+example : (Limit.run .fixed (Limit.new sixWithEOFScripted 5)
+    [.read 4, .read 4, .close, .read 1, .close]).src.closes = 1 := by decide
+
+/-- A negative limit (`N < 0` at construction): every `Read` fails with ErrStreamTooLarge, delivers
+nothing and touches neither the counter nor the source; the source is closed by `Close`, once. -/
+theorem limit_negative (s : Src) (n : Int) (hn : n < 0) (hc : s.closes = 0) :
+    (∀ m, Limit.read .fixed (Limit.new s n) m = (Limit.new s n, [], some .tooLarge)) ∧
+    (∀ bufs dflt, (Limit.consume .fixed (Limit.new s n) bufs dflt).2 = ([], .tooLarge)) ∧
+    (Limit.new s n).close.src.closes = 1 := by
+  refine ⟨fun m => Limit.read_negative _ _ m hn, fun bufs dflt => ?_, ?_⟩
+  · simp [Limit.consume, Limit.fuel, drain, Limit.read_negative _ (Limit.new s n) _ hn]
+  · simp [Limit.close, Limit.new, Src.close, hc]
+
+/-- The whole behaviour over `int64` limits, in one statement: for every `n` in the `int64` range
+the consumer loop yields — `ErrStreamTooLarge` at once if `n < 0`; the source unchanged if it has
+at most `n` bytes; else exactly `n` bytes and then `ErrStreamTooLarge` (or the source's own error
+when that arrives with byte `n+1`) — and `l.N` never leaves `int64` (see `limit_int64_range`). -/
+theorem limit_all_int64_limits (s : Src) (n : Int) (bufs : List Nat) (dflt : Nat)
+    (_hmin : minInt64 ≤ n) (_hmax : n ≤ maxInt64) (hc : s.closes = 0) (hd : 0 < dflt) :
+    (Limit.consume .fixed (Limit.new s n) bufs dflt).2 =
+      if n < 0 then ([], .tooLarge)
+      else if (s.rest.length : Int) ≤ n then (s.rest, s.term)
+      else (s.rest.take n.toNat,
+        if (s.rest.length : Int) = n + 1 ∧ s.withData = true ∧ s.term ≠ .eof then s.term else .tooLarge) := by
+  by_cases hn : n < 0
+  · rw [if_pos hn]; exact (limit_negative s n hn hc).2.1 bufs dflt
+  · rw [if_neg hn]
+    have hnat : n = ((n.toNat : Nat) : Int) := by omega
+    rw [hnat, (Limit.consume_spec s n.toNat bufs dflt hc hd).1, Limit.spec_new]
+    simp only [Int.toNat_natCast]
+    by_cases hle : s.rest.length ≤ n.toNat
+    · have : (s.rest.length : Int) ≤ ((n.toNat : Nat) : Int) := by omega
+      rw [if_pos hle, if_pos this]
+    · have : ¬ (s.rest.length : Int) ≤ ((n.toNat : Nat) : Int) := by omega
+      rw [if_neg hle, if_neg this]
+      have e : (s.rest.length = n.toNat + 1) ↔ ((s.rest.length : Int) = ((n.toNat : Nat) : Int) + 1) := by omega
+      simp only [e]
+
+/-- `l.N` stays inside `int64` under every `Read` of the repaired code (it only decreases, and not
+below −1 once it was non-negative), and the clip never panics, for every `int64` limit. -/
+theorem limit_int64_range (l : Limit) (m : Nat) (h0 : minInt64 ≤ l.n) (h1 : l.n ≤ maxInt64) :
+    minInt64 ≤ (Limit.read .fixed l m).1.n ∧ (Limit.read .fixed l m).1.n ≤ maxInt64 ∧
+    (0 ≤ l.n → -1 ≤ (Limit.read .fixed l m).1.n) ∧ clip .fixed l.n m ≠ none := by
+  obtain ⟨a, b, _, d⟩ := Limit.read_int64 l m h0 h1
+  obtain ⟨m', hm', _, _⟩ := clip_fixed_some l.n m
+  exact ⟨a, b, d, by rw [hm']; simp⟩
+
 /-! ### the code as found -/
 
 def sixWithEOF : Src :=
@@ -152,7 +244,7 @@ theorem multi_concat (srcs : List Src) (bufs : List Nat) (dflt : Nat)
   | cons s ss ih =>
     have h1 : s.term = .eof := heof s (by simp)
     have h2 := ih (fun x hx => heof x (by simp [hx]))
-    simp [multiSpec, h1, h2]
+    simp [multiSpec, Err.endsSource, h1, h2]
 
 example : ∃ srcs : List Src, (∀ s ∈ srcs, s.closes = 0) ∧ (∀ s ∈ srcs, s.term = .eof) ∧
     srcs.length = 2 ∧ (∀ s ∈ srcs, s.rest ≠ [] ∧ s.script ≠ []) :=
@@ -160,8 +252,9 @@ example : ∃ srcs : List Src, (∀ s ∈ srcs, s.closes = 0) ∧ (∀ s ∈ src
     { rest := [3], script := [0, 1], withData := false, term := .eof, closable := false, closes := 0 }],
     by decide⟩
 
-/-- In general (a source may end in an error): the consumer receives the concatenation of the
-sources up to and including the first failing one, then that error (`multiSpec`). -/
+/-- In general: the consumer receives the concatenation of the sources up to and including the
+first one that ends in an error of its own, then that error (`multiSpec`); a source that ends in
+`http.ErrBodyReadAfterClose` counts as ended (like EOF), as `Read` documents. -/
 theorem multi_concat_until_error (srcs : List Src) (bufs : List Nat) (dflt : Nat)
     (hc : ∀ s ∈ srcs, s.closes = 0) (hd : 0 < dflt) :
     ((Multi.new srcs).consume bufs dflt).2 = multiSpec srcs :=
@@ -173,56 +266,130 @@ example : multiSpec
      { rest := [4], script := [], withData := false, term := .eof, closable := true, closes := 0 }]
     = ([1, 2, 3], .boom) := by decide
 
-/-- Read path: after the stream was consumed (to EOF or to an error) and `Close` was called, every
-source that is a closer has been closed exactly once, the others never, and nothing is left. -/
+/-- Read path, `http.ErrBodyReadAfterClose`: sources ending in EOF or in that error concatenate,
+and the stream ends in EOF. -/
+theorem multi_concat_body_closed (srcs : List Src) (bufs : List Nat) (dflt : Nat)
+    (hc : ∀ s ∈ srcs, s.closes = 0) (hd : 0 < dflt)
+    (hends : ∀ s ∈ srcs, s.term = .eof ∨ s.term = .bodyClosed) :
+    ((Multi.new srcs).consume bufs dflt).2 = ((srcs.map (·.rest)).flatten, .eof) := by
+  rw [(Multi.consume_spec srcs bufs dflt hc hd).1]
+  clear hc
+  induction srcs with
+  | nil => rfl
+  | cons s ss ih =>
+    have h1 : s.term.endsSource := hends s (by simp)
+    have h2 := ih (fun x hx => hends x (by simp [hx]))
+    simp [multiSpec, h1, h2]
+
+example : ((Multi.new
+    [{ rest := [1, 2], script := [1], withData := true, term := .bodyClosed, closable := true, closes := 0 },
+     { rest := [3], script := [], withData := false, term := .eof, closable := true, closes := 0 }]).consume [] 4).2
+    = ([1, 2, 3], .eof) := by decide
+
+/-- Read path: after the stream was consumed (to EOF or to an error) and `Close` was called (also
+twice), every source that is a closer has been closed exactly once, the others never, and nothing
+is left. -/
 theorem multi_closes_each_once_read (srcs : List Src) (bufs : List Nat) (dflt : Nat)
-    (hc : ∀ s ∈ srcs, s.closes = 0) (hd : 0 < dflt) :
+    (hc : ∀ s ∈ srcs, s.closes = 0) (hd : 0 < dflt) (hnb : ∀ s ∈ srcs, s.term ≠ .bodyClosed) :
     ((Multi.new srcs).consume bufs dflt).1.close.closeCounts
         = srcs.map (fun s => if s.closable then 1 else 0) ∧
     ((Multi.new srcs).consume bufs dflt).1.close.readers = [] ∧
     ((Multi.new srcs).consume bufs dflt).1.close.close.closeCounts
         = srcs.map (fun s => if s.closable then 1 else 0) := by
   have hI := (Multi.consume_spec srcs bufs dflt hc hd).2
-  obtain ⟨h1, h2⟩ := Multi.close_counts hI
-  refine ⟨by rw [h1]; simp, h2, ?_⟩
+  obtain ⟨h1, _, _, h4⟩ := Multi.close_counts hI
+  have h5 := h4 (by
+    intro g hg
+    obtain ⟨s, hs, rfl⟩ := List.mem_map.mp hg
+    exact hnb s hs)
+  have h6 : srcs.map (fun s => if s.closable then 1 else 0)
+      = (srcs.map Src.ident).map (fun g => if g.1 then 1 else 0) := by
+    simp only [List.map_map, Function.comp_def, Src.ident]
+    apply List.map_congr_left
+    intro a _; by_cases h : a.closable = true <;> simp [h]
+  refine ⟨by rw [h5, h6], h1, ?_⟩
   -- a second Close finds nothing to close
-  simp only [Multi.close, Multi.closeCounts, List.map_nil, List.append_nil] at h1 ⊢
-  rw [h1]; simp
+  have : ((Multi.new srcs).consume bufs dflt).1.close.close.closeCounts
+      = ((Multi.new srcs).consume bufs dflt).1.close.closeCounts := by
+    simp [Multi.close, Multi.closeCounts]
+  rw [this, h5, h6]
 
-/-- WriteTo path (what `io.Copy` uses), any writer (even a failing one): after `WriteTo` and
-`Close`, every source that is a closer has been closed exactly once. -/
+/-- WriteTo path (what `io.Copy` uses), any writer (even a failing one, with or without
+`ReadFrom`), sources with or without `WriteTo`: after `WriteTo` and `Close`, every source that is
+a closer has been closed exactly once. -/
 theorem multi_closes_each_once_writeTo (srcs : List Src) (w : Wr)
-    (hc : ∀ s ∈ srcs, s.closes = 0) :
+    (hc : ∀ s ∈ srcs, s.closes = 0) (hnb : ∀ s ∈ srcs, s.term ≠ .bodyClosed) :
     ((Multi.new srcs).writeTo .fixed w).1.close.closeCounts
         = srcs.map (fun s => if s.closable then 1 else 0) ∧
     ((Multi.new srcs).writeTo .fixed w).1.close.readers = [] := by
   have hwt : (Multi.new srcs).writeTo .fixed w = Multi.writeLoop .fixed srcs [] w := rfl
   rw [hwt]
   obtain ⟨h1, h2, h3⟩ := Multi.writeLoop_inv srcs [] w hc (by simp)
-  have hI : Multi.Inv (srcs.map (·.closable)) (Multi.writeLoop .fixed srcs [] w).1 :=
+  have hI : Multi.Inv (srcs.map Src.ident) (Multi.writeLoop .fixed srcs [] w).1 :=
     ⟨h1, h2, by simpa using h3⟩
-  obtain ⟨h4, h5⟩ := Multi.close_counts hI
-  exact ⟨by rw [h4]; simp, h5⟩
+  obtain ⟨h5, _, _, h4⟩ := Multi.close_counts hI
+  have h6 := h4 (by
+    intro g hg
+    obtain ⟨s, hs, rfl⟩ := List.mem_map.mp hg
+    exact hnb s hs)
+  refine ⟨?_, h5⟩
+  rw [h6]
+  simp only [List.map_map, Function.comp_def, Src.ident]
+  apply List.map_congr_left
+  intro a _; by_cases h : a.closable = true <;> simp [h]
 
 /-- Any mixture of the two paths, complete or not: after any sequence of `Read`s (any buffer sizes)
 and `WriteTo`s (any writers) followed by `Close`, every closer source has been closed exactly once. -/
 theorem multi_closes_each_once_any_use (srcs : List Src) (ops : List MultiOp)
-    (hc : ∀ s ∈ srcs, s.closes = 0) :
+    (hc : ∀ s ∈ srcs, s.closes = 0) (hnb : ∀ s ∈ srcs, s.term ≠ .bodyClosed) :
     (Multi.run .fixed (Multi.new srcs) ops).close.closeCounts
         = srcs.map (fun s => if s.closable then 1 else 0) := by
-  have hI : Multi.Inv (srcs.map (·.closable)) (Multi.new srcs) :=
+  have hI : Multi.Inv (srcs.map Src.ident) (Multi.new srcs) :=
     ⟨hc, by simp [Multi.new], by simp [Multi.new]⟩
-  rw [(Multi.close_counts (Multi.run_inv ops _ hI)).1]; simp
+  obtain ⟨_, _, _, h4⟩ := Multi.close_counts (Multi.run_inv ops _ hI)
+  rw [h4 (by
+    intro g hg
+    obtain ⟨s, hs, rfl⟩ := List.mem_map.mp hg
+    exact hnb s hs)]
+  simp only [List.map_map, Function.comp_def, Src.ident]
+  apply List.map_congr_left
+  intro a _; by_cases h : a.closable = true <;> simp [h]
 
 example : (Multi.run .fixed (Multi.new twoClosers) [.read 1, .writeTo goodWriter, .read 3]).close.closeCounts
     = [1, 1] := by decide
+
+/-- With sources that may end in `http.ErrBodyReadAfterClose` (bodies somebody already closed):
+after any use and `Close`, the sources are the original ones in the original order, each closed
+exactly once if it is a closer — except that a source ending in that error may not have been closed
+(again) at all, which is what `Read` does when it meets the error; no source is ever closed twice. -/
+theorem multi_body_closed_not_closed_again (srcs : List Src) (ops : List MultiOp)
+    (hc : ∀ s ∈ srcs, s.closes = 0) :
+    (Multi.run .fixed (Multi.new srcs) ops).close.readers = [] ∧
+    (Multi.run .fixed (Multi.new srcs) ops).close.done.map Src.ident = srcs.map Src.ident ∧
+    (∀ s ∈ (Multi.run .fixed (Multi.new srcs) ops).close.done,
+      s.closes ≤ 1 ∧ (s.term ≠ .bodyClosed → s.closes = if s.closable then 1 else 0)) := by
+  have hI : Multi.Inv (srcs.map Src.ident) (Multi.new srcs) :=
+    ⟨hc, by simp [Multi.new], by simp [Multi.new]⟩
+  obtain ⟨h1, h2, h3, _⟩ := Multi.close_counts (Multi.run_inv ops _ hI)
+  refine ⟨h1, h2, fun s hs => ?_⟩
+  rcases h3 s hs with hco | ⟨hb, h0⟩
+  · refine ⟨?_, fun _ => hco⟩
+    unfold Src.closedOnce at hco; rw [hco]; split <;> omega
+  · exact ⟨by omega, fun hne => absurd hb hne⟩
+
+/-- … and on the Read path a body that answered `ErrBodyReadAfterClose` is indeed left alone:
+consumed to the end and closed, its Close count is still 0 while the ordinary closer got 1. -/
+example : ((Multi.new
+    [{ rest := [], script := [], withData := false, term := .bodyClosed, closable := true, closes := 0 },
+     { rest := [3], script := [], withData := false, term := .eof, closable := true, closes := 0 }]).consume [] 4).1.close.closeCounts
+    = [0, 1] := by decide
 
 /-- WriteTo path, writer that never fails: the writer receives the concatenation (up to the first
 failing source) and `WriteTo` returns nil exactly when the stream ended in EOF. -/
 theorem multi_writeTo_concat (srcs : List Src) (w : Wr)
     (hc : ∀ s ∈ srcs, s.closes = 0) (hw : w.cap = none) :
-    ((Multi.new srcs).writeTo .fixed w).2.1.got = w.got ++ (multiSpec srcs).1 ∧
-    ((Multi.new srcs).writeTo .fixed w).2.2 = errOfTerm (multiSpec srcs).2 := by
+    ((Multi.new srcs).writeTo .fixed w).2.1.got = w.got ++ (multiSpecWT srcs).1 ∧
+    ((Multi.new srcs).writeTo .fixed w).2.2 = errOfTerm (multiSpecWT srcs).2 := by
   obtain ⟨h1, h2⟩ := Multi.writeLoop_good srcs [] w hc hw
   exact ⟨by rw [show (Multi.new srcs).writeTo .fixed w = Multi.writeLoop .fixed srcs [] w from rfl, h1], h2⟩
 
@@ -282,5 +449,96 @@ example : ∃ (s : Src) (w : Wr) (c : Nat), s.closes = 0 ∧ w.cap = some c ∧ 
     s.script ≠ [] :=
   ⟨{ rest := [1, 2, 3, 4, 5], script := [2, 0, 2], withData := true, term := .eof, closable := true, closes := 0 },
    { got := [], cap := some 3, closable := true, closes := 0 }, 3, by decide⟩
+
+
+/-! ## `io.CopyBuffer` fast paths inside `MultiReaderCloser.WriteTo` -/
+
+/-- Whatever path `io.CopyBuffer(w, r, buf)` takes — `r.WriteTo(w)` when the source implements
+`io.WriterTo` (strings.Reader, bytes.Buffer, *os.File …), `w.ReadFrom(r)` when the writer
+implements `io.ReaderFrom` (any buffer size of its own), or the generic loop — a writer that never
+fails receives the whole rest of the source, the result is the source's error (nil for EOF), and
+the source's close count and identity are untouched. -/
+theorem copyBuffer_all_paths (s : Src) (w : Wr) (hc : s.closes = 0) (hw : w.cap = none) :
+    (copyBuffer s w).2.1.got = w.got ++ s.rest ∧ (copyBuffer s w).2.2 = errOfTerm s.term ∧
+    (copyBuffer s w).1.closes = 0 ∧ (copyBuffer s w).1.closable = s.closable := by
+  obtain ⟨h1, h2⟩ := copyBuffer_good s w hc hw
+  obtain ⟨_, _, h3, h4⟩ := copyBuffer_meta s w hc
+  exact ⟨by rw [h1], h2, by rw [h4, hc], h3⟩
+
+/-- so `multi_writeTo_concat` and `multi_closes_each_once_writeTo` above hold verbatim for sources
+with `WriteTo` and writers with `ReadFrom` (both quantify over all `Src` / `Wr`, flags included);
+a concrete instance with both fast paths in play: -/
+example :
+    let srcs : List Src :=
+      [{ rest := [1, 2], script := [1, 1], withData := false, term := .eof, closable := true, closes := 0, hasWriteTo := true },
+       { rest := [3, 4], script := [0, 1], withData := true, term := .eof, closable := true, closes := 0 }]
+    let w : Wr := { got := [], cap := none, closable := false, closes := 0, readFromBuf := 1 }
+    ((Multi.new srcs).writeTo .fixed w).2.1.got = [1, 2, 3, 4] ∧
+    ((Multi.new srcs).writeTo .fixed w).1.close.closeCounts = [1, 1] := by decide
+
+/-- Observation (not part of the property): the two paths treat a body that answers
+`http.ErrBodyReadAfterClose` differently — `Read` takes it for the end of that source, `WriteTo`
+(through `io.CopyBuffer`) reports it as an error. -/
+theorem writeTo_body_closed_differs :
+    let srcs : List Src :=
+      [{ rest := [], script := [], withData := false, term := .bodyClosed, closable := true, closes := 0 },
+       { rest := [3], script := [], withData := false, term := .eof, closable := true, closes := 0 }]
+    ((Multi.new srcs).consume [] 4).2 = ([3], .eof) ∧
+    ((Multi.new srcs).writeTo .fixed goodWriter).2.2 = some .bodyClosed := by decide
+
+/-! ## TeeReadCloser used from several goroutines (Read ∥ Close ∥ Stop under the mutex) -/
+
+/-- In every state — before or after `Close`/`Stop`, whatever other calls ran in between — a `Read`
+hands its caller only bytes it has written to the writer, and after `Close` or `Stop` it hands out
+nothing (`io.ErrClosedPipe`). -/
+theorem tee_read_only_returns_written (t : Tee) (m : Nat) :
+    (t.read m).1.w.got = t.w.got ++ (t.read m).2.1 ∧
+    (t.rOpen = false ∨ t.wOpen = false → t.read m = (t, [], some .closedPipe)) :=
+  ⟨Tee.read_written t m, Tee.read_after_close t m⟩
+
+/-- Every reachable state of the concurrent system (any number of goroutines calling Read, Close,
+Stop in any interleaving; each body runs under the mutex): the writer holds exactly the bytes
+handed out by the `Read`s so far, in lock order (plus those of the call inside the critical
+section); r and w have each been closed at most once — exactly once, if a closer, as soon as they
+are detached by `Close` (r, w) or `Stop` (w), and not at all before. -/
+theorem tee_concurrent_safe (s : Src) (w : Wr) (hs : s.closes = 0) (hw : w.closes = 0)
+    (c : TeeConc) (hr : TeeConc.Reach (Tee.new s w) c) :
+    c.tee.w.got = w.got ++ c.returnedData ++ c.pendingData ∧
+    c.tee.src.closes = (if c.tee.rOpen then 0 else if s.closable then 1 else 0) ∧
+    c.tee.w.closes = (if c.tee.wOpen then 0 else if w.closable then 1 else 0) ∧
+    c.tee.src.closes ≤ 1 ∧ c.tee.w.closes ≤ 1 ∧
+    (c.holder = none ↔ c.result = none) := by
+  have h0 : (Tee.new s w).CInv s.closable w.closable := by
+    simp [Tee.CInv, Tee.new, hs, hw]
+  obtain ⟨⟨_, _, h3, h4⟩, h5, h6⟩ := TeeConc.inv_of_reach h0 c hr
+  refine ⟨h6, h3, h4, ?_, ?_, h5⟩
+  · rw [h3]; split
+    · omega
+    · split <;> omega
+  · rw [h4]; split
+    · omega
+    · split <;> omega
+
+/-- No deadlock inside the reader: a call that waits gets the mutex as soon as it is free, and the
+holder can always leave (method bodies terminate in the model: the source's `Read` returns). -/
+theorem tee_concurrent_progress (c : TeeConc) :
+    (∀ g op, c.holder = none → (g, op) ∈ c.waiting → (c.step (.enter g op)).isSome) ∧
+    (∀ g d e, c.holder = some g → c.result = some (d, e) → ∀ op, (c.step (.leave g op)).isSome) := by
+  refine ⟨fun g op hh hm => ?_, fun g d e hh hres op => ?_⟩
+  · simp only [TeeConc.step, hh, hm, and_self, ↓reduceIte]
+    rcases c.tee.apply op with ⟨t', d, e⟩
+    rfl
+  · simp [TeeConc.step, hh, hres]
+
+/-- a schedule with two goroutines: g1's Read runs, g2's Close waits for the mutex, then runs; a
+third call (Read by g1) afterwards gets `io.ErrClosedPipe` and no data -/
+def demoSchedule : Option (List (Nat × Bytes × Option Err) × Nat × Nat × Bytes) :=
+  ((TeeConc.init (Tee.new sixWithEOFScripted { got := [], cap := none, closable := true, closes := 0 })).run
+    [.call 1 (.read 4), .enter 1 (.read 4), .call 2 .close, .leave 1 (.read 4),
+     .enter 2 .close, .leave 2 .close, .call 1 (.read 4), .enter 1 (.read 4), .leave 1 (.read 4)]).map
+    (fun c => (c.returned.map (fun x => (x.1, x.2.2)), c.tee.src.closes, c.tee.w.closes, c.tee.w.got))
+
+example : demoSchedule
+    = some ([(1, [], some .closedPipe), (2, [], none), (1, [1, 2], none)], 1, 1, [1, 2]) := by rfl
 
 end Kit.Streams
